@@ -287,7 +287,19 @@ func isScalarKind(k Kind) bool {
 
 type Unsupported struct{ Msg string }
 
-func unsupported(msg string) *Unsupported { return &Unsupported{msg} }
+var curExec *Exec
+
+func unsupported(msg string) *Unsupported {
+	if curExec != nil && len(curExec.stack) > 0 {
+		msg += " [in"
+		n := len(curExec.stack)
+		for i := n - 1; i >= 0 && i >= n-4; i-- {
+			msg += " " + fnName(curExec.stack[i])
+		}
+		msg += "]"
+	}
+	return &Unsupported{msg}
+}
 func (u *Unsupported) Error() string      { return "outside subset: " + u.Msg }
 
 // ---------- well-known literals ----------
@@ -469,7 +481,7 @@ func theoryAxioms(all []*Term) []*Term {
 		case "s2b":
 			ax = append(ax, Eq(App("b2s", SStr, t), t.Args[0]), Neq(t, BytesNil))
 		case "b2s":
-			ax = append(ax, Eq(SLen(t.Args[0]), BLen(t.Args[0])))
+			ax = append(ax, Eq(App("slen", SInt, t), BLen(t.Args[0])))
 		case "bcat":
 			ax = append(ax, Eq(App("blen", SInt, t), Add(BLen(t.Args[0]), BLen(t.Args[1]))))
 		case "scat":
@@ -628,6 +640,12 @@ func (ex *Exec) merge(c *Term, a, b Value) Value {
 		return b
 	}
 	if b == nil {
+		return a
+	}
+	if _, ok := a.(*oobVal); ok {
+		return b
+	}
+	if _, ok := b.(*oobVal); ok {
 		return a
 	}
 	switch x := a.(type) {
